@@ -97,15 +97,13 @@ Fixpoint sig_lookup (sigs : sigmap) (name : N) : option esig :=
 
 Inductive ekind :=
 | KGate | KDelay | KSetFrequency | KSetPhase | KSetScale | KShiftFrequency | KShiftPhase
-| KPulse | KDefWaveform | KDefGateMatrix.
+| KPulse | KDefWaveform | KDefGateMatrix
+| KFrameDefinition      (* DEFFRAME: its expression-valued attributes (scanned since fix 5c78b87) *)
+| KDefGatePauliSum.     (* DEFGATE ... AS PAULI-SUM: its term coefficients (scanned since fix 5c78b87) *)
 
 Inductive nkind :=
 | KDeclaration | KFence | KHalt | KWait | KInclude | KJump | KLabel | KNop
 | KPragma | KReset | KSwapPhases | KDefGatePermutation.
-
-(** definitions that carry expressions which [memory_accesses] does not look into: the attribute
-    values of a DEFFRAME and the term coefficients of a DEFGATE ... AS PAULI-SUM *)
-Inductive xkind := KFrameDefinition | KDefGatePauliSum.
 
 Inductive bkind := KDefCal | KDefCircuit | KDefMeasureCal.
 
@@ -128,7 +126,6 @@ Inductive instr :=
 | ILoad (d : mref) (src : N) (off : mref)
 | IStore (dst : N) (off : mref) (s : operand)
 | INoAccess (k : nkind)
-| IUnscanned (k : xkind) (es : list expr)
 | IDefGateSeq (gates : list (list expr))     (* DEFGATE ... AS SEQUENCE: parameters of each gate *)
 | IBlock (k : bkind) (params : list expr) (body : list instr).
 
@@ -208,7 +205,6 @@ Fixpoint accesses (sigs : sigmap) (i : instr) : option acc :=
   | ILoad d src off => Some ([src; mreg off], access d, [])
   | IStore dst off s => Some (accesses_with_operand off s, [dst], [])
   | INoAccess _ => Some acc_none
-  | IUnscanned _ _ => Some acc_none              (* "can't contain any memory references" *)
   | IDefGateSeq gates =>
       Some (fold_left acc_union (map (fun ps => read_all (exprs_refs ps)) gates) acc_none)
   | IBlock k params body =>
@@ -226,27 +222,20 @@ Fixpoint memN (n : N) (l : list N) : bool :=
 Definition subsetN (a b : list N) : bool := forallb (fun x => memN x b) a.
 Definition setN_eqb (a b : list N) : bool := subsetN a b && subsetN b a.
 
-(** What the property asks for: as [accesses], except that the expressions of the two unscanned
-    definition kinds count like the expressions of every other definition. *)
-Definition expected (sigs : sigmap) (i : instr) : option acc :=
+(** The table as it was before fix 5c78b87 (quil-rs 6d06b71): DEFFRAME and DEFGATE AS PAULI-SUM
+    were listed among the instructions that "can't contain any memory references".  Kept only for
+    the regression statement [C27_unfixed_table_refuted]; nothing else uses it. *)
+Definition accesses_unfixed (sigs : sigmap) (i : instr) : option acc :=
   match i with
-  | IUnscanned _ es => Some (read_all (exprs_refs es))
+  | IExprs KFrameDefinition _ | IExprs KDefGatePauliSum _ => Some acc_none
   | _ => accesses sigs i
   end.
 
-(** the (decidable) class on which [accesses] and [expected] differ — known finding
-    C27-unscanned-definition-exprs *)
-Definition unscanned_class (i : instr) : bool :=
-  match i with
-  | IUnscanned _ es => match exprs_refs es with [] => false | _ => true end
-  | _ => false
-  end.
-
-(** Verified instance checker: compares a reported result with what the property asks for.
-    0 = exactly; 2 = unsound (error/ok mismatch, or some consulted / assigned / captured region is
-    missing); 3 = sound but not exact (reports a region the instruction does not touch). *)
+(** Verified instance checker: compares a reported result with the access table.
+    0 = exactly the table; 2 = unsound (error/ok mismatch, or some consulted / assigned / captured
+    region is missing); 3 = sound but not exact (reports a region the instruction does not touch). *)
 Definition chk_access (sigs : sigmap) (i : instr) (obs : option acc) : N :=
-  match expected sigs i, obs with
+  match accesses sigs i, obs with
   | None, None => 0
   | Some a, Some o =>
       if subsetN (a_reads a) (a_reads o) && subsetN (a_writes a) (a_writes o)
@@ -258,20 +247,9 @@ Definition chk_access (sigs : sigmap) (i : instr) (obs : option acc) : N :=
   | _, _ => 2
   end%N.
 
-Definition acc_eqb (a b : acc) : bool :=
-  setN_eqb (a_reads a) (a_reads b) && setN_eqb (a_writes a) (a_writes b)
-  && setN_eqb (a_captures a) (a_captures b).
-
-Definition model_agrees (sigs : sigmap) (i : instr) (obs : option acc) : bool :=
-  match accesses sigs i, obs with
-  | None, None => true
-  | Some a, Some o => acc_eqb a o
-  | _, _ => false
-  end.
-
 (** A case also carries the references yielded by the real iterator for every expression of the
     instruction (in order), compared with the stack-machine model [memrefs_iter]; code 4 = the
-    iterator differs; code 1 = the checker accepts but the model of the code says otherwise. *)
+    iterator differs. *)
 Fixpoint listM_eqb (a b : list mref) : bool :=
   match a, b with
   | [], [] => true
@@ -290,9 +268,7 @@ Definition case := (sigmap * instr * option acc * list (expr * list mref))%type.
 Definition case_verdict (c : case) : N :=
   let '(sigs, i, obs, its) := c in
   let v := chk_access sigs i obs in
-  if negb (N.eqb v 0) then v
-  else if negb (model_agrees sigs i obs) then 1%N
-  else if iter_ok its then 0%N else 4%N.
+  if negb (N.eqb v 0) then v else if iter_ok its then 0%N else 4%N.
 
 Fixpoint failing_from (n : N) (cs : list case) : list (N * N) :=
   match cs with
